@@ -145,6 +145,13 @@ def pkgFromDetail (d : GoStr) : GoStr :=
 
 def splitLines (s : GoStr) : List GoStr := splitNl s
 
+/-- the last of the segments separated by 0x1E -/
+def lastSeg30 (s : GoStr) : GoStr :=
+  let rec go (cur : GoStr) : GoStr → GoStr
+    | [] => cur.reverse
+    | b :: rest => if b == 30 then go [] rest else go (b :: cur) rest
+  go [] s
+
 /-- the details of the items of one completion list, separated by 0x1F -/
 def splitOn31 (s : GoStr) : List GoStr :=
   let rec go (cur : GoStr) : GoStr → List GoStr
@@ -204,7 +211,10 @@ def step (comp : Comp) (s : St) : Op → St × List Ev
     let (s, c, evs) := parseTemplate comp s uri text
     let s := { s with smc := put s.smc uri c.map, goSrcs := put s.goSrcs uri c.text }
     (s, evs ++ [.dOpen (goURI uri) v langGo c.text, .rNotify "open"])
-  | .change uri text v =>
+  | .change uri text0 v =>
+    -- a notification may carry several full-text content changes (separated by 0x1E here): applied in
+    -- order, the last one is the buffer
+    let text := lastSeg30 text0
     if !isGohtURI uri then (s, [.rNotify "change"]) else
     match get s.srcs uri with
     | none => (s, [.rNotify "change-error"])
@@ -273,7 +283,9 @@ def step (comp : Comp) (s : St) : Op → St × List Ev
             | some text =>
               let (line, txt) := addImportEdit (splitLines text) (pkgFromDetail detail)
               [(⟨line, 0, line, 0⟩, txt)]
-        (s, [call, .rCompletion (some ((splitOn31 detail).map fun d => (te, addsOf d)))])
+        -- item k replaces the k-th scripted range (the first one when there are fewer ranges than items)
+        let teOf (k : Nat) : Option Rng := match answer[k]? with | some x => some (mapRangeBack own x.r) | none => te
+        (s, [call, .rCompletion (some ((splitOn31 detail).zipIdx.map fun (d, k) => (teOf k, addsOf d)))])
       | _ => (s, [call])
 
 def run (comp : Comp) (s : St) (ops : List Op) : St × List Ev :=
